@@ -55,6 +55,18 @@ def runto_case(args):
         sp = t3.gen_workflow(rng, maxlen=3, nproc=rng.randint(2, 6))
         idxs = [k for k, n in enumerate(sp.nodes) if n[0] == "PROC"]
         sp.runto = sorted(rng.sample(idxs, rng.randint(1, min(2, len(idxs)))))
+        if i % 5 == 3:
+            # a process without out-ports that is NOT upstream of any target (port-less, or fed by a parameter feeder, or
+            # fed by a process of the workflow): none of its commands may run
+            kind = rng.choice(["portless", "params", "fed"])
+            if kind == "portless":
+                sp.proc(t3.Proc("side", kind="write", outs=[], extra=["side.log"]))
+            elif kind == "params":
+                sp.proc(t3.Proc("side", kind="write", pars=[("q", ("V", ["x", "y"]))], outs=[], extra=["side.log"]))
+            else:
+                sp.proc(t3.Proc("side", kind="cat", ins=[("a", [(idxs[-1], sp.nodes[idxs[-1]][1].outs[0][0])])], outs=[]))
+                if idxs[-1] in sp.runto:
+                    sp.runto = [idxs[0]]
     sp.runto_mode = rng.choice(["N", "N", "R", "P"])
     r = t3.success_case(sp, timeout=60)
     r["kind"] = "runto-" + sp.runto_mode
